@@ -9,6 +9,7 @@ from scipy.integrate import quad
 
 from raysect.core import Vector3D, translate, rotate_x, rotate_y, rotate_z
 from raysect.optical import World
+from raysect.core import Node
 
 from cherab.core import Plasma, Species, Maxwellian, Beam
 from cherab.core.atomic import AtomicData, BeamStoppingRate
@@ -19,7 +20,7 @@ from ..core import Given
 
 ID = "C04"
 RULE = ("Case = beam (energy, power, element, sigma, divergence_x/y incl. 0 and unequal, length, placement = translation + "
-        "three rotations), attenuator (step, clamp on/off, clamp_sigma), plasma placement, 1-3 ion species (+ optional neutral "
+        "three rotations, optionally below an intermediate node with its own transform), attenuator (step, clamp on/off, clamp_sigma), plasma placement, 1-3 ion species (+ optional neutral "
         "with a null rate) with uniform / Gaussian-blob / sinusoidally modulated density, temperature and flow profiles, and "
         "analytic stopping coefficients S_i(E,n,T) (incl. identically zero). Oracle: cross-section integral of Beam.density by "
         "48x48 Gauss-Legendre (polar Gauss-Legendre inside the clamp ellipse) against P/(e E m)/v * exp(-tau(z)) with tau from "
@@ -35,7 +36,8 @@ TOLERANCES = {
     "streamline invariants": "1e-6 relative (RK4, 200 steps)",
     "unit vector": "1e-12",
 }
-REQUIRED_LABELS = ["beam:flux:clamp", "beam:flux:diverging", "beam:flux:nonuniform", "beam:flux:no-stopping"]
+REQUIRED_LABELS = ["beam:flux:clamp", "beam:flux:diverging", "beam:flux:nonuniform", "beam:flux:no-stopping", "beam:flux:nested-nodes",
+                   "beam:flux:4-node-minimum"]
 
 AMU, E = K.atomic_mass, K.e
 BEAM_ELEMENTS = ["hydrogen", "deuterium", "tritium", "helium"]
@@ -89,11 +91,16 @@ def strategy(draw):
         "energy": draw(st.floats(1e3, 1e5)), "power": draw(st.floats(1e3, 5e6)), "bel": draw(st.sampled_from(BEAM_ELEMENTS)),
         "sigma": draw(st.floats(0.01, 0.2)), "divx": draw(st.sampled_from([0.0, 0.0, 0.3, 1.0, 2.5, 5.0])),
         "divy": draw(st.sampled_from([0.0, 0.5, 0.5, 1.0, 3.0, 5.0])), "length": draw(st.floats(0.5, 4.0)),
-        "step": draw(st.sampled_from([0.002, 0.005, 0.01, 0.02, 0.05])),
+        "step": draw(st.sampled_from([0.002, 0.005, 0.01, 0.02, 0.05, 0.05, 0.3, 1.5, 10.0])),   # the last ones: 4-node minimum
         "clamp": draw(st.booleans()), "clamp_sigma": draw(st.floats(0.5, 6.0)),
         "bt": [draw(st.floats(-1.0, 1.0)) for _ in range(3)], "br": [draw(st.floats(-180.0, 180.0)) for _ in range(3)],
         "pt": [draw(st.floats(-0.5, 0.5)) for _ in range(3)], "pr": [draw(st.sampled_from([0.0, 0.0, 30.0, -75.0, 90.0])) for _ in range(3)],
         "species": species, "neutral": draw(st.booleans()),
+        # beam and/or plasma below an intermediate scene-graph node with its own transform (None = child of the world)
+        "bnode": draw(st.one_of(st.none(), st.none(), st.tuples(st.lists(st.floats(-1.0, 1.0), min_size=3, max_size=3),
+                                                                 st.lists(st.floats(-180.0, 180.0), min_size=3, max_size=3)))),
+        "pnode": draw(st.one_of(st.none(), st.none(), st.tuples(st.lists(st.floats(-1.0, 1.0), min_size=3, max_size=3),
+                                                                 st.lists(st.sampled_from([0.0, 45.0, -120.0]), min_size=3, max_size=3)))),
         "zs": [draw(st.floats(0.0, 1.0)) for _ in range(5)],
         "probe": [draw(st.floats(-2.5, 2.5)), draw(st.floats(-2.5, 2.5)), draw(st.floats(0.02, 0.6)), draw(st.floats(0.5, 1.0))],
     }
@@ -155,7 +162,9 @@ class MockData(AtomicData):
 
 def build(case):
     world = World()
-    plasma = Plasma(parent=world, transform=ray_matrix(case["pt"], case["pr"]))
+    pparent = Node(parent=world, transform=ray_matrix(*case["pnode"])) if case.get("pnode") else world
+    bparent = Node(parent=world, transform=ray_matrix(*case["bnode"])) if case.get("bnode") else world
+    plasma = Plasma(parent=pparent, transform=ray_matrix(case["pt"], case["pr"]))
     plasma.b_field = (lambda x, y, z: Vector3D(0, 0, 1))
     plasma.electron_distribution = Maxwellian(lambda x, y, z: 1e19, lambda x, y, z: 100.0,
                                               (lambda x, y, z: Vector3D(0, 0, 0)), K.m_e)
@@ -176,7 +185,7 @@ def build(case):
                                               (lambda x, y, z: Vector3D(0, 0, 0)), el.atomic_weight * AMU)))
         table[(el.name, 0)] = lambda e, n, t: 0.0       # the provider's null rate for neutrals
     plasma.composition = comp
-    beam = Beam(parent=world, transform=ray_matrix(case["bt"], case["br"]))
+    beam = Beam(parent=bparent, transform=ray_matrix(case["bt"], case["br"]))
     beam.plasma = plasma
     beam.atomic_data = MockData(table)
     beam.energy = case["energy"]
@@ -204,7 +213,9 @@ def run(case, ctx):
     v = math.sqrt(2 * case["energy"] * E / AMU)
     rate = case["power"] / (case["energy"] * m_el * E)          # particles per second  P / (E m)
     n_line0 = rate / v
-    b2p = np.linalg.inv(own_matrix(case["pt"], case["pr"])) @ own_matrix(case["bt"], case["br"])
+    p2w = (own_matrix(*case["pnode"]) if case.get("pnode") else np.eye(4)) @ own_matrix(case["pt"], case["pr"])
+    b2w = (own_matrix(*case["bnode"]) if case.get("bnode") else np.eye(4)) @ own_matrix(case["bt"], case["br"])
+    b2p = np.linalg.inv(p2w) @ b2w
     axis_dir = (b2p @ np.array([0, 0, 1.0, 0]))[:3]
     vbeam = axis_dir / np.linalg.norm(axis_dir) * v
 
@@ -292,6 +303,10 @@ def run(case, ctx):
         if not stopping:
             ctx.close(flux, flux0, "flux-constant-without-stopping", rtol=2e-6 if case["clamp"] else 1e-9)
     ctx.label("flux", "flux:clamp" if case["clamp"] else "flux:noclamp")
+    if case.get("bnode") or case.get("pnode"):
+        ctx.label("flux:nested-nodes")
+    if 1 + int(math.ceil(L / case["step"])) < 4:
+        ctx.label("flux:4-node-minimum")
     if diverging:
         ctx.label("flux:diverging")
     if nonuniform and stopping:
@@ -309,7 +324,11 @@ def run(case, ctx):
     ctx.check(np.all(np.diff(ax) <= 1e-12 * ax[0]), "monotone", lambda: "on-axis density increases: max step %r of %r at z=%r"
               % (float(np.diff(ax).max()), float(ax[0]), float(zz[int(np.argmax(np.diff(ax)))])))
     ctx.check(all(o == 0 for o in out), "zero-outside-length", lambda: "density outside [0, L]: %r" % (out,))
-    ctx.check(ends[0] > 0 and (ends[1] > 0 or tau_L > 600), "inside-ends", lambda: "density at z=0 / z=L: %r" % (ends,))
+    # z = L belongs to the beam.  The value there is the last node's, reached through the linear interpolant of the last cell: once
+    # that cell attenuates by more than e^-30 its rounding (1e-16 of the previous node) exceeds the node value and may return 0.0
+    last_cell = h * (S(L - h) + S(L)) / (2 * v) if stopping else 0.0
+    ctx.check(ends[0] > 0 and ends[1] >= 0 and (ends[1] > 0 or tau_L > 600 or last_cell > 30), "inside-ends",
+              lambda: "density at z=0 / z=L: %r (tau_L=%r, last cell %r)" % (ends, tau_L, last_cell))
     ctx.close(ax[0], n_line0 / (2 * math.pi * sig * sig), "on-axis-source", rtol=1e-9)
 
     # ---- clamp: zero outside the clamp ellipse, positive inside
